@@ -16,6 +16,7 @@ from obl.dbimpl_recover import recover_obls, recover_log_obls, open_obls, array_
 
 OBLIGATIONS = (write_obls("w", quick=((0, 0, 0, -1), (0, 1, 0, -1)), thorough=())
                + recover_obls("b")
+               + recover_obls("b", quick=(), thorough=((2, 1, 0),), real_sort=True)
                + array_sort_obls("b")
                + recover_log_obls("c")
                + open_obls("d", quick=((1, 1, 1, 2),), thorough=((2, 1, 1, 2),))
@@ -24,7 +25,7 @@ OBLIGATIONS = (write_obls("w", quick=((0, 0, 0, -1), (0, 1, 0, -1)), thorough=()
 META = {
     "level": "model_checking",
     "level_text": "Bounded model checking (CBMC) of the real recovery path of src/db_impl.c (#included, so the static functions run unchanged): ldb_recover, ldb_new_db, ldb_recover_log_file, ldb_write_level0_table, ldb_open, ldb_remove_obsolete_files, ldb_destroy_internal, plus ldb_write for the acknowledge side, the real quicksort of util/array.c and the real file-number allocator of version_set.c. Inputs are symbolic: the directory listing (file types and numbers), the counters recovered from the MANIFEST, the version's table set, the records of each log (sizes, sequences, counts, reported corruptions), the options, and the status of every env call. Asserted: success of a write implies its record was appended to the current log; reopening replays exactly the logs numbered >= log_number or == prev_log_number, each once, in ascending order, every record of >= 12 bytes once and in file order into a memtable that is written to a level-0 table recorded in the edit or kept as the live memtable; last_sequence and the file-number counter end above everything replayed; the edit that retires the old logs names the log that really is current and is applied before any file is removed.",
-    "level_note": "Trusted: CBMC's semantics of the goto-cc translation; the stubs below db_impl.c listed under models (in particular the log reader as a record source: framing, checksums and torn tails are decided by C15; the write-batch codec by C04.b; ldb_versions_recover / ldb_versions_apply by their contracts, decided by C17; the real filename.c by C17/C18); the prose composition of the per-unit obligations into the whole-history statement (acknowledged => in the log; log => replayed in order; replayed => in a table of the applied edit or in the live memtable). The byte image of the directory at each kill point is not materialised: 'crash at any instant' is covered through the invariants each unit keeps at every env call, not by enumerating kill points. No thread interleaving is executed (recovery is single-threaded; ldb_write uses the rely/guarantee model of C04).",
+    "level_note": "Finding F3 (ldb_recover_log_file swallowed a failure to open a log when paranoid_checks is off; the log was then treated as recovered and deleted by ldb_open) was found by these obligations, is fixed in /repo (dba9c21) and is now asserted by every recover/open obligation. Trusted: CBMC's semantics of the goto-cc translation; the stubs below db_impl.c listed under models (in particular the log reader as a record source: framing, checksums and torn tails are decided by C15; the write-batch codec by C04.b; ldb_versions_recover / ldb_versions_apply by their contracts, decided by C17; the real filename.c by C17/C18); the prose composition of the per-unit obligations into the whole-history statement (acknowledged => in the log; log => replayed in order; replayed => in a table of the applied edit or in the live memtable). The byte image of the directory at each kill point is not materialised: 'crash at any instant' is covered through the invariants each unit keeps at every env call, not by enumerating kill points. No thread interleaving is executed (recovery is single-threaded; ldb_write uses the rely/guarantee model of C04).",
     "bounds": ["ldb_recover: directory of <=3 (quick) / <=5 (thorough) arbitrary distinct names of any file type incl. foreign names, 62-bit file numbers (16-bit for 4 and 5 names), <=2 tables in the recovered version, <=1 (quick) / <=2 (thorough) records per log",
                "ldb_recover_log_file: <=2 (quick) / <=3 (thorough) records per log with symbolic sizes (all size_t values), sequences 1..2^56, counts 0..10^6, a corruption report possible before every record and before EOF, symbolic write_buffer_size / memtable usage, paranoid_checks and reuse_logs both ways",
                "ldb_open: directory of <=2 names at recovery and <=2 (quick) / 3 (thorough) at garbage collection; every env call may fail with IOERR/CORRUPTION/ENOSPC/EMFILE/ENOENT",
@@ -33,7 +34,6 @@ META = {
     "outside": ["more than 5 directory entries / more than 3 records per log (the replay loop is size-independent but not proved so)",
                 "the contents of records and tables (abstract batches: sequence + count; C04.b/C15/C16 decide the codecs)",
                 "byte-exact crash images and kill points inside ldb_versions_apply / ldb_set_current_file (C02/C05.b/C17)",
-                "a log that cannot be OPENED during recovery (env fault, paranoid_checks off) is skipped by ldb_maybe_ignore_error and later deleted: outside C03's hypothesis (no I/O fault) and reported as candidate finding F3 for C12; the path is witnessed, and strict_logopen=True variants of the obligations assert it",
                 "a non-table file that carries the number of a table the version expects hides the missing table from ldb_recover's check (same in LevelDB); excluded by the one-counter file-number discipline (C03.e)"],
     "models": ["harness/dbimpl/world.h ghost mutex/condvar (ldb_mutex_assert_held re-enabled)",
                "harness/dbimpl/recover_world.h: encoded file names + stubbed filename.c API; symbolic directory listings; ldb_versions_recover/add_files/apply/new_file_number/mark_file_number by contract; log reader as a record source with corruption reports; abstract batches; single-object memtable/file/writer models with lifetime monitors; small abstract rb_set64; every env call with a symbolic status; static db object instead of the heap",
